@@ -339,7 +339,7 @@ static void history(Builder &b, const HistoryOpts &ho) {
 			if (in_batch) continue;
 			if (rng.chance(2, 3)) {
 				b.init_dataset_full(d, rng.pick(ready));
-				for (int w : vms) if (b.V[w].alive && (b.V[w].flags & F_FULL) && b.V[w].d == d && !b.V[w].batch) {
+				for (int w : vms) if (b.V[w].alive && (b.V[w].flags & F_FULL) && b.V[w].d == d && b.V[w].did == b.D[d].id && !b.V[w].batch) { // (bound to THIS dataset object, not to a released one that used the slot)
 					if (rng.chance(1, 2)) b.set_dataset(w, d); // not required after an in-place re-initialisation; both orders are legal
 					if (rng.chance(3, 4)) b.hash(w, b.rnd_input());
 				}
